@@ -81,25 +81,125 @@ RULE = ('multipart/form-data (15%: multipart/mixed) bodies of 0..6 parts; conten
 
 
 # ----------------------------------------------------------------------------------------------
+# tables regenerated from the live modules
+# ----------------------------------------------------------------------------------------------
+GEN_TABLE = 'CpModel/Gen/C04Tables.lean'
+#: charset labels the generator may put into a part's Content-Type / a filename* value
+CHARSET_POOL = ['utf-8', 'UTF-8', 'utf8', 'utf_8', 'us-ascii', 'US-ASCII', 'ascii', 'iso-8859-1', 'ISO-8859-1', 'latin-1',
+                'latin1', 'l1', 'bogus', 'x-unknown-charset', 'utf-99', 'none']
+_CODEC_TAG = {'ascii': 0, 'utf-8': 1, 'iso8859-1': 2}
+
+
+def _lean_bytes(b):
+    return '[' + ', '.join(str(x) for x in b) + ']'
+
+
+def probe():
+    import codecs
+    from cherrypy import _cpreqbody
+    from cherrypy.lib import httputil
+    part = _cpreqbody.Part(io.BytesIO(), httputil.HeaderMap(), b'--x')
+    names = []
+    for n in CHARSET_POOL:
+        try:
+            tag = _CODEC_TAG.get(codecs.lookup(n).name)
+            if tag is None:
+                continue                       # a codec the model has no decoder for: not used
+        except LookupError:
+            tag = 3
+        names.append((n, tag))
+    return {'procs': [(str(k), getattr(f, '__name__', type(f).__name__)) for k, f in part.processors.items()],
+            'charsets': [str(c) for c in _cpreqbody.Part.attempt_charsets],
+            'default_ct': str(_cpreqbody.Part.default_content_type), 'maxram': int(_cpreqbody.Part.maxrambytes),
+            'codecs': names}
+
+
+def tables(ctx):
+    t = probe()
+    src = """/-!
+  GENERATED by harness/c04.py from the live modules on every run of the C04 check - do not edit.
+  The `processors` of a fresh `Part` (key, function name), `Part.attempt_charsets`, `Part.default_content_type`,
+  `Part.maxrambytes`, and what `codecs.lookup` makes of the charset labels the generator uses
+  (0 ascii, 1 utf-8, 2 iso8859-1, 3 LookupError).
+-/
+namespace CpModel.Gen.C04
+
+def partProcessors : List (List UInt8 × List UInt8) :=
+  [%s]
+
+def partAttemptCharsets : List (List UInt8) := [%s]
+
+def partDefaultContentType : List UInt8 := %s
+
+def partMaxrambytes : Nat := %d
+
+def codecNames : List (List UInt8 × Nat) :=
+  [%s]
+
+end CpModel.Gen.C04
+""" % (',\n   '.join('(%s, %s)' % (_lean_bytes(k.encode('latin-1')), _lean_bytes(f.encode('latin-1')))
+                     for k, f in t['procs']),
+       ', '.join(_lean_bytes(c.encode('latin-1')) for c in t['charsets']),
+       _lean_bytes(t['default_ct'].encode('latin-1')), t['maxram'],
+       ',\n   '.join('(%s, %d)' % (_lean_bytes(n.encode('latin-1')), tag) for n, tag in t['codecs']))
+    return {GEN_TABLE: src}
+
+
+_LIVE = {}
+
+
+def live():
+    if not _LIVE:
+        _LIVE.update(probe())
+    return _LIVE
+
+
+# ----------------------------------------------------------------------------------------------
 # serialisation (ground truth) and classification
 # ----------------------------------------------------------------------------------------------
 def _q(s):
     return s.replace('\\', '\\\\').replace('"', '\\"')
 
 
+def _cd_value(p):
+    """Content-Disposition value from the part's semantic fields and its (optional) syntactic variation."""
+    var = p.get('cd_var') or {}
+    params = []
+    if p.get('name') is not None:
+        params.append(('name', p['name']))
+    if p.get('filename') is not None:
+        params.append(('filename', p['filename']))
+    if var.get('swap'):
+        params.reverse()
+    out = var.get('disp', 'form-data')
+    sep = var.get('sep', '; ')
+    eq = var.get('eq', '=')
+    for k, v in params:
+        if var.get('token') and v and all(c.isalnum() for c in v):
+            out += '%s%s%s%s' % (sep, k, eq, v)                  # unquoted token
+        else:
+            out += '%s%s%s"%s"' % (sep, k.upper() if var.get('upper') else k, eq, _q(v))
+    for extra in var.get('extra', []):
+        out += sep + extra
+    if p.get('filename_star') is not None:
+        out += sep + 'filename*=' + p['filename_star']
+    return out
+
+
 def part_headers(p):
+    """The part's header lines (text, Latin-1), continuation lines included."""
+    if p.get('raw_headers') is not None:
+        return list(p['raw_headers'])
+    names = p.get('hdr_names') or {}
     hs = []
-    if p.get('name') is not None or p.get('filename') is not None:
-        d = 'form-data'
-        if p.get('name') is not None:
-            d += '; name="%s"' % _q(p['name'])
-        if p.get('filename') is not None:
-            d += '; filename="%s"' % _q(p['filename'])
-        hs.append('Content-Disposition: ' + d)
+    if p.get('name') is not None or p.get('filename') is not None or p.get('filename_star') is not None:
+        hs.append(names.get('cd', 'Content-Disposition') + ': ' + _cd_value(p))
     if p.get('ctype') is not None:
-        hs.append('Content-Type: ' + p['ctype'])
+        hs.append(names.get('ct', 'Content-Type') + ':' + p.get('ct_ws', ' ') + p['ctype'])
     for h in p.get('extra', []):
         hs.append(h)
+    if p.get('extra_first'):
+        hs = list(p['extra_first']) + hs
     return hs
 
 
@@ -134,6 +234,22 @@ def rfc_clean(boundary, content):
     return (b'\r\n--' + boundary) not in (b'\r\n' + content)
 
 
+def _field_text(p):
+    """What the sender put into a plain field, as text (None: the generator does not vouch for it)."""
+    if 'text' in p:
+        return p['text']
+    try:
+        return bytes.fromhex(p['content_hex']).decode('utf-8')
+    except UnicodeDecodeError:
+        return None
+
+
+def is_loose(case):
+    """Some part uses a header shape / charset declaration / content type the statement does not speak about:
+    such a case is judged by the comparison with the model only (and by the bound on the connection)."""
+    return any(p.get('loose') for p in case['parts'])
+
+
 def expected(case):
     """What the handler must receive: (params {name: [entry]}, unnamed parts [entry])."""
     params, parts = {}, []
@@ -141,16 +257,17 @@ def expected(case):
     for p in case['parts']:
         content = bytes.fromhex(p['content_hex'])
         ct = p['ctype'].split(';')[0].strip() if p.get('ctype') is not None else 'text/plain'
-        if p.get('filename') is None:
-            e = ['field', content.decode('utf-8')]
+        fn = p.get('filename_expect', p.get('filename'))
+        if fn is None:
+            e = ['field', _field_text(p)]
         else:
-            e = ['file', p['filename'], ct, content.hex()]
+            e = ['file', fn, ct, content.hex()]
         name = p.get('name')
         if name is None:
             if mixed:
                 params.setdefault('parts', []).append(e)
             else:
-                parts.append(['part', p.get('filename'), ct, content.hex()])
+                parts.append(['part', fn, ct, content.hex()])
         else:
             params.setdefault(name, []).append(e)
     return params, parts
@@ -178,10 +295,54 @@ def _entry(v):
     return ['file', v.filename, v.content_type.value, None if data is None else data.hex()]
 
 
-def _app(bufsize, maxram):
+def _points(x):
+    return None if x == 'N' else ([] if x == '-' else [int(t) for t in x.split('.')])
+
+
+def _str(points):
+    return None if points is None else ''.join(chr(c) for c in points)
+
+
+class RecFile(io.BytesIO):
+    """what a custom make_file() hands out"""
+
+
+def _part_dump(p):
+    try:
+        hdrs = [[str(k).encode('latin-1', 'replace').hex(), str(v).encode('latin-1', 'replace').hex()]
+                for k, v in p.headers.items()]
+    except Exception as e:
+        hdrs = 'x:' + type(e).__name__
+    data = None
+    stored = None
+    if getattr(p, 'file', None) is not None:
+        stored = 'file'
+        try:
+            pos = p.file.tell()
+            p.file.seek(0)
+            data = p.file.read().hex()
+            p.file.seek(pos)
+        except Exception as e:
+            data = 'x:' + type(e).__name__
+    elif getattr(p, 'value', None) is not None:
+        stored = 'value'
+        data = p.value.hex()
+    cs = None
+    try:
+        cs = p.content_type.params.get('charset')
+    except Exception:
+        pass
+    return {'hdrs': hdrs, 'name': None if p.name is None else p.name.encode('latin-1', 'replace').hex(),
+            'filename': None if p.filename is None else [ord(c) for c in p.filename],
+            'ctype': p.content_type.value, 'charset': None if cs is None else cs.encode('latin-1', 'replace').hex(),
+            'proc': _J.get('procs', {}).get(id(p)), 'stored': stored, 'data': data,
+            'mk': isinstance(getattr(p, 'file', None), RecFile)}
+
+
+def _app(bufsize, maxram, mkfile='default'):
     import cherrypy
     from cherrypy import _cpreqbody
-    key = (bufsize, maxram)
+    key = (bufsize, maxram, mkfile)
     app = _APPS.get(key)
     if app is None:
         if not _APPS:
@@ -189,6 +350,21 @@ def _app(bufsize, maxram):
 
         class P(_cpreqbody.Part):
             maxrambytes = maxram
+
+            def __init__(self, fp, headers, boundary):
+                _cpreqbody.Part.__init__(self, fp, headers, boundary)
+                _J.setdefault('allparts', []).append(self)
+                # which entry of the part's processor table runs (the originals are called through)
+                for k, f in list(self.processors.items()):
+                    self.processors[k] = (lambda ff, me: lambda entity: (
+                        _J.setdefault('procs', {}).__setitem__(id(me), getattr(ff, '__name__', '?')), ff(entity))[1])(
+                            f, self)
+                dp = self.default_proc
+                self.default_proc = lambda: (_J.setdefault('procs', {}).__setitem__(id(self), 'default_proc'), dp())[1]
+
+            if mkfile == 'custom':
+                def make_file(self):
+                    return RecFile()
 
         class Root:
             @cherrypy.expose
@@ -234,7 +410,7 @@ def run_real(case):
         env['CONTENT_LENGTH'] = str(len(body))
     _J.clear()
     st = []
-    it = _app(case.get('bufsize', 8192), case.get('maxram', 1000))(
+    it = _app(case.get('bufsize', 8192), case.get('maxram', 1000), case.get('mkfile', 'default'))(
         env, lambda status, headers, exc=None: st.append(status))
     try:
         for _ in it:
@@ -242,9 +418,13 @@ def run_real(case):
     finally:
         if hasattr(it, 'close'):
             it.close()
+    try:
+        allparts = [_part_dump(p) for p in _J.get('allparts', [])]
+    except Exception as e:
+        allparts = 'x:' + type(e).__name__
     return {'status': int(st[0].split()[0]) if st else None, 'params': _J.get('params'),
             'parts': _J.get('parts'), 'is_list': _J.get('is_list'), 'storage': _J.get('storage'),
-            'order': [[k, len(v)] for k, v in (_J.get('params') or {}).items()],
+            'order': [[k, len(v)] for k, v in (_J.get('params') or {}).items()], 'allparts': allparts,
             'off': fp.pos, 'req_end': fp.req_end, 'len': len(body)}
 
 
@@ -263,52 +443,66 @@ def _unhex(x):
     return None if x == 'N' else (b'' if x == '-' else bytes.fromhex(x))
 
 
-def _decode_field(b):
-    for cs in ('us-ascii', 'utf-8'):
-        try:
-            return b.decode(cs)
-        except UnicodeDecodeError:
-            pass
-    return None
+DEFAULT_PROC = 'default_proc'
 
 
 def parse_model(line, case):
     """Model output -> the same canonical observation the real side produces."""
     if line.startswith('err:'):
-        return {'status': 400, 'params': None, 'parts': None, 'err': line[4:]}
+        return {'status': 400, 'params': None, 'parts': None, 'err': line[4:], 'allparts': None}
     f = line.split(' ')
     kv = dict(x.split('=') for x in f[1:3])
     mixed = case.get('subtype', 'form-data') != 'form-data'
-    params, parts, storage = {}, [], []
+    params, parts, storage, allparts = {}, [], [], []
     g = f[3][2:]
     groups = [] if g == '-' else [[(_unhex(x.split(':')[0]) or b'').decode('latin-1'),
                                    [int(n) for n in x.split(':')[1].split('+')]] for x in g.split(',')]
     i = 4
-    undec = False
+    bad = None
+    nested = None
     while i < len(f):
         assert f[i] == 'P'
-        name, fn, ct, spilled, content = f[i + 1:i + 6]
-        i += 6
-        name, fn, ct, content = _unhex(name), _unhex(fn), _unhex(ct), _unhex(content)
+        name, fn, ct, spilled, content, hdrs, fnx, charset, proc, infile, entry, dtext = f[i + 1:i + 13]
+        i += 13
+        name, ct, content = _unhex(name), _unhex(ct), _unhex(content)
         name = None if name is None else name.decode('latin-1')
-        fn = None if fn is None else fn.decode('latin-1')
         ct = ct.decode('latin-1')
-        if fn is None:
-            t = _decode_field(content)
-            if t is None:
-                undec = True
-            e = ['field', t]
+        proc = _unhex(proc).decode('latin-1')
+        hl = [] if hdrs == '-' else [[('' if y == '-' else y) for y in x.split(':')] for x in hdrs.split(';')]
+        if fnx == 'E':
+            allparts.append({'hdrs': hl, 'err': 'filename*'})
+            bad = bad or 'filename*'
+            break
+        fnp = _points(fnx)
+        stored = 'file' if infile == '1' else 'value'
+        allparts.append({'hdrs': hl, 'name': None if name is None else name.encode('latin-1').hex(), 'filename': fnp,
+                         'ctype': ct, 'charset': None if charset == 'N' else ('' if charset == '-' else charset),
+                         'proc': proc, 'stored': stored, 'data': content.hex(),
+                         'mk': stored == 'file' and case.get('mkfile') == 'custom'})
+        if proc != DEFAULT_PROC:
+            nested = len(allparts) - 1
+            break
+        if fnp is None:
+            if name is not None or mixed:
+                if dtext == 'U':
+                    bad = bad or 'decode'
+                    continue
+                e = ['field', _str(_points(dtext[1:]))]
+            else:
+                e = None
         else:
-            e = ['file', fn, ct, content.hex()]
+            e = ['file', _str(fnp), ct, content.hex()]
         if name is None and not mixed:
-            parts.append(['part', fn, ct, content.hex()])
-            storage.append('file' if (fn or spilled == '1') else 'value')
+            parts.append(['part', _str(fnp), ct, content.hex()])
+            storage.append(stored)
         else:
             params.setdefault('parts' if name is None else name, []).append(e)
-    if undec:
-        return {'status': 400, 'params': None, 'parts': None, 'err': 'decode'}
+    if nested is not None:
+        return {'status': None, 'nested': nested, 'allparts': allparts, 'params': None, 'parts': None}
+    if bad:
+        return {'status': 400, 'params': None, 'parts': None, 'err': bad, 'allparts': allparts}
     return {'status': 200, 'params': params, 'parts': parts, 'storage': storage, 'groups': groups,
-            'off': None if kv['off'] == 'N' else int(kv['off'])}
+            'allparts': allparts, 'off': None if kv['off'] == 'N' else int(kv['off'])}
 
 
 # ----------------------------------------------------------------------------------------------
@@ -325,7 +519,11 @@ def oracle(case, obs):
         sig = 'F7:near_miss_delimiter'
     elif pre_marker:
         sig = 'preamble_marker'     # outside the statement (preamble text must not contain a marker line)
-    if obs['status'] != 200:
+    elif any(p.get('nested') for p in case['parts']):
+        sig = 'F28:part_content_type_processor'
+    if is_loose(case):
+        pass                        # judged by the comparison with the model (and the bound below)
+    elif obs['status'] != 200:
         bad.append(('status %s for a well-formed multipart body' % obs['status'], sig or 'status'))
     else:
         got = obs['params']
@@ -421,11 +619,117 @@ def gen_content(rng, boundary, maxram, kind, allow_near):
     return c
 
 
+HDR_CASE = {'cd': ['content-disposition', 'CONTENT-DISPOSITION', 'Content-disposition', 'cOnTeNt-DiSpOsItIoN'],
+            'ct': ['content-type', 'CONTENT-TYPE', 'Content-type', 'cONTENT-tYPE']}
+EXTRA_HEADERS = [['X-Extra: 1'], ['x-multi: a'], ['x-multi: a', 'X-MULTI: b'], ['X-Folded: a', '\tcontinued'],
+                 ['X-Folded: a', ' b', ' c'], ['x-empty:'], ['X-Colon: a:b'], ['X-Latin: caf\xe9'],
+                 ['Content-Transfer-Encoding: binary'], ['Content-Length: 3'], ['MIME-Version: 1.0'],
+                 ['x1a-b2c: v'], ['X-Multi: 1', 'x-other: 2', 'X-MULTI: 3'], ['X-Ws :  padded  ']]
+#: (codec, labels the sender may declare it with, sample texts it can encode)
+TEXT_CODECS = [('utf-8', ['utf-8', 'UTF-8', 'utf8', 'utf_8'], ['gr\xfc\xdfe', '\u20ac 5', 'plain', 'a\r\nb', '\U0001f600', '']),
+               ('iso-8859-1', ['iso-8859-1', 'ISO-8859-1', 'latin-1', 'latin1', 'l1'], ['caf\xe9', '\xff\xfe', 'plain', '']),
+               ('ascii', ['us-ascii', 'US-ASCII', 'ascii'], ['plain text', 'a--b', ''])]
+STAR_NAMES = ['\u20ac rates.txt', 'na\xefve.txt', 'a b;c.txt', 'plain.txt', '100%.txt', "o'neil.txt", '\U0001f600.png']
+
+
+def _live_label_ok(label):
+    return any(n == label for n, _ in live()['codecs'])
+
+
+def gen_part_headers(rng, p, kind, boundary):
+    """Decorate the part with header-level variation; sets p['loose'] when the statement does not cover it."""
+    from urllib.parse import quote
+    if rng.random() < 0.2:
+        p['hdr_names'] = {'cd': rng.choice(HDR_CASE['cd']), 'ct': rng.choice(HDR_CASE['ct'])}
+    if rng.random() < 0.3:
+        var = {}
+        if rng.random() < 0.4:
+            var['swap'] = True
+        if rng.random() < 0.3:
+            var['token'] = True
+        if rng.random() < 0.4:
+            var['sep'] = rng.choice([';', ' ; ', ';\t', ';  '])
+        if rng.random() < 0.2:
+            var['eq'] = rng.choice([' = ', '= ', ' ='])
+        if rng.random() < 0.2:
+            var['upper'] = True
+        if rng.random() < 0.3:
+            var['disp'] = rng.choice(['attachment', 'FORM-DATA', 'file', 'form-data'])
+        if rng.random() < 0.3:
+            var['extra'] = [rng.choice(['size=3', 'x-flag', 'creation-date="12 Feb"', 'Name2="z"'])]
+        p['cd_var'] = var
+    if rng.random() < 0.25:
+        p.setdefault('extra', [])
+        p['extra'] = list(p['extra']) + rng.choice(EXTRA_HEADERS)
+    if rng.random() < 0.12:
+        p['extra_first'] = rng.choice(EXTRA_HEADERS)
+    if rng.random() < 0.1:
+        p['ct_ws'] = rng.choice(['', '  ', '\t'])
+    # a declared charset for a plain field
+    if kind != 'file' and p.get('filename') is None and rng.random() < 0.3:
+        codec, labels, texts = rng.choice(TEXT_CODECS)
+        text = rng.choice(texts)
+        label = rng.choice([l for l in labels if _live_label_ok(l)] or labels[:1])
+        raw = text.encode(codec)
+        if delim_like(boundary.encode('latin-1'), raw):
+            raw, text = b'x', 'x'
+        p['content_hex'] = raw.hex()
+        p['text'] = text
+        p['ctype'] = rng.choice(['text/plain; charset=%s', 'text/plain;charset="%s"', 'text/x-y; CHARSET=%s',
+                                 'text/plain; format=flowed; charset=%s']) % label
+    # RFC 5987 filename*
+    if p.get('filename') is not None and rng.random() < 0.12:
+        t = rng.choice(STAR_NAMES)
+        codec, label = rng.choice([('utf-8', 'UTF-8'), ('utf-8', 'utf-8'), ('iso-8859-1', 'iso-8859-1')])
+        try:
+            raw = t.encode(codec)
+        except UnicodeEncodeError:
+            codec, label, raw = 'utf-8', 'UTF-8', t.encode('utf-8')
+        p['filename_star'] = "%s'%s'%s" % (label, rng.choice(['', 'en', 'de-CH']), quote(raw, safe=''))
+        p['filename_expect'] = t
+        if rng.random() < 0.3:
+            p['filename'] = None            # only the extended parameter
+    # ---- shapes outside the statement: compared with the model only ----
+    k = rng.random()
+    if k < 0.03:
+        p['extra_first'] = None
+        names = p.get('hdr_names') or {}
+        p['loose'] = True                   # a folded Content-Disposition (continuation lines are joined with ', ')
+        p['raw_headers'] = [names.get('cd', 'Content-Disposition') + ': form-data;', ' name="%s"' % _q(p.get('name') or 'x')]
+    elif k < 0.05:
+        p['loose'] = True                   # the header twice
+        p['extra'] = list(p.get('extra') or []) + ['Content-Disposition: form-data; name="second"']
+    elif k < 0.08 and p.get('filename') is None:
+        p['loose'] = True                   # charset declarations that do not fit the bytes / unknown labels
+        p['ctype'] = 'text/plain; charset=' + rng.choice(['bogus', 'utf-8', 'us-ascii', 'x-unknown-charset', '""',
+                                                          'iso-8859-1', 'none'])
+        p['content_hex'] = rng.choice([b'caf\xe9', b'\xff\xfe', b'plain', b'', b'\xe2\x82\xac', b'\xe2\x82']).hex()
+        p.pop('text', None)
+    elif k < 0.11 and p.get('filename') is not None:
+        p['loose'] = True                   # malformed / exotic filename*
+        p['filename_star'] = rng.choice(["UTF-8'x", "''", "a'b'c'd", "bogus''plain", "bogus''a%41", "utf-8''%ff%fe",
+                                         "utf-8''%e2%82", "utf-8''%zz%4", "us-ascii''%e9", "UTF-8''caf\xe9%20x",
+                                         "''%41", "iso-8859-1''%e9%00", "utf-8''%f0%90%80", "utf-8''%ed%a0%80x"])
+        p.pop('filename_expect', None)
+    elif k < 0.125:
+        p['loose'] = True                   # the stdlib-style parser's weak spot: a value ending in a backslash
+        p['name'] = (p.get('name') or 'n') + '\\'
+    elif k < 0.14 and p.get('cd_var') is not None:
+        p['loose'] = True
+        p['cd_var']['extra'] = ['creation-date="Wed, 12 Feb"']
+    elif k < 0.16:
+        # the part's own Content-Type selects a processor inherited from Entity (finding F28)
+        p['nested'] = True
+        p['ctype'] = rng.choice(['multipart/mixed; boundary=I', 'application/x-www-form-urlencoded',
+                                 'multipart/form-data; boundary=zz', 'multipart/x'])
+
+
 def gen_case(rng, big=False):
     boundary = rng.choice(BOUNDARIES)
     maxram = rng.choice([0, 1, 10, 100, 1000, 1000])
     allow_near = rng.random() < 0.08
     nparts = rng.choice([0, 1, 1, 2, 2, 3, 3, 4, 5, 6])
+    plain = rng.random() < 0.35          # as before: no header-level variation at all
     parts = []
     for _ in range(nparts):
         kind = rng.choices(['field', 'file', 'unnamed'], weights=[45, 45, 10])[0]
@@ -450,6 +754,10 @@ def gen_case(rng, big=False):
         if rng.random() < 0.1:
             p['extra'] = [rng.choice(['X-Extra: 1', 'Content-Transfer-Encoding: binary', 'x-multi: a',
                                       'Content-Length: 3'])]
+        if not plain:
+            gen_part_headers(rng, p, kind, boundary)
+            if any(',' in (p.get(k) or '') for k in ('name', 'filename')) and p.get('cd_var'):
+                p['cd_var'].pop('extra', None)
         parts.append(p)
     pre = b''
     if rng.random() < 0.25:
@@ -468,6 +776,12 @@ def gen_case(rng, big=False):
     n = sum(len(p['content_hex']) // 2 for p in parts) + 200 * len(parts) + 100
     if n > 5000 and bufsize < 64:
         bufsize = rng.choice([64, 1024, 8192])
+    # the model's reader copies its push-back buffer once per line (as the code does, but cell by cell): keep
+    # (number of lines) x (bytes read ahead per line) within a budget; many lines x big buffers stay covered by the
+    # smaller bodies
+    nlines = sum(bytes.fromhex(p['content_hex']).count(b'\n') for p in parts) + 8 * len(parts) + 4
+    while nlines * min(bufsize, n) > 12_000_000 and bufsize > 64:
+        bufsize = max(64, bufsize // 8)
     k = rng.random()
     if k < 0.3:
         frag = []
@@ -479,10 +793,129 @@ def gen_case(rng, big=False):
             'trailing_crlf': trailing, 'beyond_hex': beyond.hex(), 'bufsize': bufsize, 'frag': frag,
             'maxram': maxram, 'subtype': 'mixed' if rng.random() < 0.15 else 'form-data',
             'quote_boundary': rng.random() < 0.3 or ' ' in boundary or ',' in boundary}
+    if rng.random() < 0.15:
+        case['mkfile'] = 'custom'   # the part class overrides make_file()
     if rng.random() < 0.1:
         case['chunked'] = True      # no declared length: the body ends where the connection ends
         case['beyond_hex'] = ''
     return case
+
+
+# ----------------------------------------------------------------------------------------------
+# unit-level cases: one function of the part machinery at a time, far more inputs than whole bodies allow
+# ----------------------------------------------------------------------------------------------
+CD_ATOMS = ['form-data', 'name=', 'filename=', 'filename*=', '"', '"', ';', '; ', '=', ' ', '\\', '\\"', 'a', 'b c', 'x.txt',
+            ',', "UTF-8''", "iso-8859-1'en'", "bogus''", "'", '%41', '%e2%82%ac', '%ff', '%', 'caf\xe9', 'NAME=', '\t',
+            'name="a"', 'filename="f;g"', '"q\\"r"', 'attachment']
+HDR_LINE_ATOMS = ['X-A: 1\r\n', 'x-a: 2\r\n', 'Content-Type: text/plain\r\n', ' folded\r\n', '\tfolded more \r\n',
+                  'content-TYPE:image/png\r\n', 'NoColon\r\n', 'X-B:\r\n', ': empty-name\r\n', 'X-C: a:b\r\n',
+                  'X-A: 3\n', 'X-D: caf\xe9\r\n', 'x1-y2: v\r\n', 'X-A : spaced \r\n', '\r\n']
+DEC_CONTENTS = [b'', b'plain', b'caf\xc3\xa9', b'caf\xe9', b'\xff\xfe', b'\xe2\x82\xac', b'\xe2\x82', b'\xed\xa0\x80',
+                b'\xf0\x9f\x98\x80', b'\xc0\x80', b'a\x00b', b'\x7f\x80', b'\xf4\x90\x80\x80', b'\r\n--']
+
+
+def gen_unit(rng):
+    k = rng.random()
+    if k < 0.45:
+        v = ''.join(rng.choice(CD_ATOMS) for _ in range(rng.randint(1, 7)))
+        return {'kind': 'cd', 'value': v.strip()}
+    if k < 0.7:
+        label = rng.choice([None, None] + [n for n, _ in live()['codecs']] + ['', '"utf-8"'])
+        return {'kind': 'dec', 'charset': label, 'content_hex': rng.choice(DEC_CONTENTS).hex()}
+    lines = [rng.choice(HDR_LINE_ATOMS) for _ in range(rng.randint(0, 5))]
+    if rng.random() < 0.85:
+        lines.append('\r\n')
+    return {'kind': 'hdr', 'lines': lines}
+
+
+def _hdrmap_dump(h):
+    return [[str(k).encode('latin-1', 'replace').hex(), str(v).encode('latin-1', 'replace').hex()] for k, v in h.items()]
+
+
+def run_unit(case):
+    import cherrypy
+    from cherrypy import _cpreqbody
+    from cherrypy.lib import httputil
+    kind = case['kind']
+    try:
+        if kind == 'cd':
+            h = httputil.HeaderMap()
+            h['Content-Disposition'] = case['value']
+            e = _cpreqbody.Part(io.BytesIO(), h, b'--x')
+            return {'name': None if e.name is None else e.name.encode('latin-1', 'replace').hex(),
+                    'filename': None if e.filename is None else [ord(c) for c in e.filename]}
+        if kind == 'dec':
+            h = httputil.HeaderMap()
+            if case['charset'] is not None:
+                h['Content-Type'] = 'text/plain; charset=' + case['charset']
+            e = _cpreqbody.Part(io.BytesIO(), h, b'--x')
+            e.value = bytes.fromhex(case['content_hex'])
+            return {'text': [ord(c) for c in e.fullvalue()]}
+        data = ''.join(case['lines']).encode('latin-1')
+        rd = _cpreqbody.SizedReader(FragStream(data, []), len(data), None, bufsize=7)
+        return {'hdrs': _hdrmap_dump(_cpreqbody.Part.read_headers(rd))}
+    except cherrypy.HTTPError as e:
+        return {'err': 'http%d' % e.code}
+    except (ValueError, EOFError) as e:
+        return {'err': 'malformed'}
+    except Exception as e:
+        return {'err': 'x:' + type(e).__name__}
+
+
+def line_unit(case):
+    kind = case['kind']
+    if kind == 'cd':
+        return 'cd ' + (case['value'].encode('latin-1').hex() or '-')
+    if kind == 'dec':
+        cs = case['charset']
+        if cs is not None and len(cs) >= 2 and cs[0] == cs[-1] == '"':
+            cs = cs[1:-1]                   # parse_header removes one pair of quotes
+        return 'dec %s %s' % ('N' if cs is None else (cs.encode('latin-1').hex() or '-'), case['content_hex'] or '-')
+    # read_headers stops at the first blank line: the model folds the lines before it
+    ls = []
+    for l in case['lines']:
+        if l == '\r\n':
+            break
+        ls.append(l)
+    return 'hdr ' + (','.join(l.encode('latin-1').hex() for l in ls) or '-')
+
+
+def parse_unit(case, line):
+    kind = case['kind']
+    if kind == 'cd':
+        if line == 'E':
+            return {'err': 'http400'}
+        name, fn = line.split(' ')
+        return {'name': None if name == 'N' else ('' if name == '-' else name), 'filename': _points(fn)}
+    if kind == 'dec':
+        return {'err': 'http400'} if line == 'U' else {'text': _points(line)}
+    if line == 'err':
+        return {'err': 'malformed'}
+    return {'hdrs': [] if line == '-' else [[('' if y == '-' else y) for y in x.split(':')] for x in line.split(';')]}
+
+
+def check_units(ctx, cases, compare=True, stats=True):
+    obs = [run_unit(c) for c in cases]
+    model = ctx.model([line_unit(c) for c in cases]) if compare else None
+    for i, (case, o) in enumerate(zip(cases, obs)):
+        ctx.case(case, nontrivial='err' not in o, key=json.dumps(case, sort_keys=True))
+        if stats:
+            ctx.count('unit:%s:%s' % (case['kind'], o.get('err', 'ok')))
+        if model is None:
+            continue
+        ctx.compared()
+        m = parse_unit(case, model[i])
+        impl = o
+        if case['kind'] == 'hdr':
+            ok_lines = case['lines'] and '\r\n' in case['lines']
+            if 'err' in o and 'err' in m:
+                continue
+            if not ok_lines and 'err' in o:
+                continue                    # the block never ends: EOFError / missing CRLF, the model line has no end
+        if impl != m:
+            ctx.disagree(case, impl, m, 'part machinery (%s): code and model differ' % {
+                'cd': 'Content-Disposition name / filename / filename*', 'dec': 'field value decoding',
+                'hdr': 'read_headers'}[case['kind']])
 
 
 def enum_small():
@@ -544,12 +977,27 @@ def check_cases(ctx, cases, compare=True, stats=True):
         if model is not None:
             ctx.compared()
             m = parse_model(model[i], case)
+            unknown_fail = [f for f in fails if ctx.match_known(f[1]) is None and f[1] != 'preamble_marker']
+            if m.get('nested') is not None:
+                # a part whose own Content-Type selects an inherited processor (F28): the model stops there;
+                # compared: everything up to and including that part's header block, names, and the processor chosen
+                k = m['nested']
+                keys = ('hdrs', 'name', 'filename', 'ctype', 'charset', 'proc')
+                got = obs['allparts'][:k + 1] if isinstance(obs['allparts'], list) else obs['allparts']
+                if isinstance(got, list):
+                    got = [{x: d.get(x) for x in keys} for d in got]
+                    got[:k] = [dict(d) for d in got[:k]]
+                want = [{x: d.get(x) for x in keys} for d in m['allparts']]
+                if stats:
+                    ctx.count('nested_part_processor:' + m['allparts'][k]['proc'])
+                if got != want and not unknown_fail:
+                    ctx.disagree(case, got, want, 'parts up to the one with an inherited processor')
+                continue
             impl = {'status': obs['status'], 'params': obs['params'] if obs['status'] == 200 else None,
                     'parts': obs['parts'] if obs['status'] == 200 else None}
             mm = {'status': m['status'], 'params': m['params'], 'parts': m['parts']}
             if mm['status'] == 200 and case.get('subtype', 'form-data') != 'form-data':
                 impl['parts'] = mm['parts'] = None
-            unknown_fail = [f for f in fails if ctx.match_known(f[1]) is None and f[1] != 'preamble_marker']
             if impl != mm and not unknown_fail:
                 ctx.disagree(case, impl, mm, 'multipart parser and model differ (%s)'
                              % ('status' if impl['status'] != mm['status'] else 'parts'))
@@ -563,6 +1011,14 @@ def check_cases(ctx, cases, compare=True, stats=True):
                     and case.get('subtype', 'form-data') == 'form-data' and obs['storage'] != m['storage'] \
                     and not unknown_fail:
                 ctx.disagree(case, obs['storage'], m['storage'], 'memory/file representation of unnamed parts')
+            elif obs['status'] == 200 and m['status'] == 200 and obs['allparts'] != m['allparts'] and not unknown_fail:
+                a, b2 = obs['allparts'], m['allparts']
+                j = next((x for x in range(min(len(a), len(b2))) if a[x] != b2[x]), None) \
+                    if isinstance(a, list) else None
+                what = 'number of parts' if j is None else 'part %d: %s' % (
+                    j, ', '.join(x for x in a[j] if a[j].get(x) != b2[j].get(x)))
+                ctx.disagree(case, a if j is None else a[j], b2 if j is None else b2[j],
+                             'per-part view (header map, name, filename, charset, processor, storage): ' + what)
 
 
 def corpus_cases():
@@ -597,6 +1053,7 @@ def run(ctx):
     if ctx.quick():
         cases = [gen_case(ctx.rng, big=(i % 50 == 49)) for i in range(2000)]
         check_cases(ctx, cases)
+        check_units(ctx, [gen_unit(ctx.rng) for _ in range(3000)])
     else:
         from .c05 import merge_worker
         nproc = 12
@@ -612,7 +1069,7 @@ def run(ctx):
 
 def search(ctx, around=None):
     cases = []
-    if around is not None:
+    if around is not None and not around.get('kind'):
         for _ in range(2000):
             d = json.loads(json.dumps(around))
             d['bufsize'] = ctx.rng.choice([1, 2, 3, 7, 16, 64, 8192, 65536])
@@ -626,6 +1083,14 @@ def search(ctx, around=None):
 
 
 def replay(ctx, case):
+    if case.get('kind'):
+        print('case   :', json.dumps(case))
+        print('impl   :', json.dumps(run_unit(case)))
+        m = ctx.model([line_unit(case)])
+        if m:
+            print('model  :', json.dumps(parse_unit(case, m[0])))
+        check_units(ctx, [case], stats=False)
+        return
     obs = run_real(case)
     body = serialize(case)
     print('boundary:', repr(case['boundary']), 'bufsize:', case.get('bufsize'), 'maxram:', case.get('maxram'),
